@@ -1,6 +1,7 @@
 package main
 
 import (
+	"os"
 	"fmt"
 	"math/big"
 	"go/types"
@@ -217,6 +218,32 @@ func (in *Interp) vsymCall(name string, args []Value, c *ssa.CallCommon) []Value
 			}
 			in.notes = appendNote(in.notes, fmt.Sprintf("conflicting accesses on %s slot %d by goroutine instances %d and %d", r.a.obj.name, r.a.slot, r.a.gor, r.b.gor))
 			// a race exists iff both accesses can happen: pc ∧ guard_a ∧ guard_b satisfiable
+			in.obligation(label, "assert", ts.Not(ts.And(r.a.guard, r.b.guard)))
+		}
+		return nil
+	case "AssertNoRacesHB":
+		label := strArg(args[0])
+		races := in.findRacesHB()
+		if os.Getenv("GOSMT_DEBUG") != "" {
+			per := map[int]int{}
+			for _, e := range in.acclog {
+				per[e.gor]++
+			}
+			fmt.Fprintf(os.Stderr, "HB: %d accesses, per goroutine %v, races %d\n", len(in.acclog), per, len(races))
+			for g, v := range in.gorVC {
+				fmt.Fprintf(os.Stderr, "HB: final clock of %d: %v\n", g, v)
+			}
+		}
+		in.notes = appendNote(in.notes, fmt.Sprintf("happens-before analysis over %d logged accesses of %d goroutine instances", len(in.acclog), in.nextGor+1))
+		if len(races) == 0 {
+			in.obligation(label, "assert", ts.True())
+			return nil
+		}
+		for i, r := range races {
+			if i >= 8 {
+				break
+			}
+			in.notes = appendNote(in.notes, fmt.Sprintf("accesses not ordered by happens-before on %s slot %d: goroutine %d at %s, goroutine %d at %s", r.a.obj.name, r.a.slot, r.a.gor, shortSite(in.site(r.a.ins)), r.b.gor, shortSite(in.site(r.b.ins))))
 			in.obligation(label, "assert", ts.Not(ts.And(r.a.guard, r.b.guard)))
 		}
 		return nil
